@@ -21,6 +21,8 @@ func init() {
 			ruleStartChunkEffects(c, r, t, "")
 			ruleRawEOFFlag(c, r, "")
 			ruleBudgetFresh(c, r, "")
+			ruleByteAtGuards(c, r, "")
+			ruleCtorReopen(c, r, "")
 			ruleChunkLimits(c, r, "")
 			ruleWriter2(c, r, t, "")
 			r.Floor("SEQ-STARTCHUNK", 7)
